@@ -63,6 +63,8 @@ class Opts:
         self.backward_ann = False  # main thread carries '## backward ##' annotations (not nested in each other)
         self.force_second_thread = False
         self.first_op_children = False  # the first file entry may enclose other calls
+        self.annotation_names = None  # names of user annotations (default: vocab.USER_ANNOTATIONS); may repeat operator names
+        self.early_kernels = False  # some activities are stamped 1-2 us before their launch call starts (clock skew): queue length -1
         self.align_ends = False  # some kernels end exactly when the busiest other stream becomes free (equally heavy alternative paths)
         self.random_pad = True  # one case in eight gets 130-140 metadata entries after the first entry (file positions > 127)
         self.pad_entries = 0  # number of metadata entries inserted right after the first entry (pushes file positions up)
@@ -98,7 +100,7 @@ def leaf_launch(draw, o: Opts, streams: List[int]) -> Dict[str, Any]:
         fault = pick(draw, ["none"] * o.fault_none_weight + ["no_launch", "no_kernel", "no_corr"])
     return {"t": "launch", "name": name, "kind": kind, "pre": pick(draw, SMALL),
             "dur": pick(draw, DUR + ([0] if o.allow_zero_call else [])),
-            "stream": pick(draw, streams), "delay": pick(draw, ([0, 0] if o.allow_zero_delay else [1]) + [1, 2, 3, 6]),
+            "stream": pick(draw, streams), "delay": pick(draw, ([0, 0] if o.allow_zero_delay else [1]) + [1, 2, 3, 6] + ([-1, -2] if o.early_kernels else [])),
             "kgap": pick(draw, [0, 0, 1, 2, 4]), "kdur": pick(draw, ([0] if o.allow_zero_kdur else []) + list(o.kdurs)),
             "kname": kname, "fault": fault, "bytes": pick(draw, [0, 4, 1024, 4096]),
             "bw": pick(draw, [0.0, 0.5, 1.25, 12.0, 100.0]),
@@ -133,7 +135,7 @@ def op_node(draw, o: Opts, streams: List[int], depth: int, names: Optional[List[
     cat = "cpu_op"
     pool = names or o.op_names or vocab.CPU_OPS
     if o.annotations and depth >= 0 and pick(draw, [True] * o.annotation_weight + [False] * (6 - o.annotation_weight)):
-        cat, pool = "user_annotation", [a for a in vocab.USER_ANNOTATIONS if a != "## backward ##"]
+        cat, pool = "user_annotation", (o.annotation_names or [a for a in vocab.USER_ANNOTATIONS if a != "## backward ##"])
     kids = draw(body(o, streams, depth + 1)) if depth < o.max_depth else []
     if cat == "user_annotation" and kids and pick(draw, [False, False, False, True]):
         # an empty annotation nested first inside the annotation (events without graph nodes, nested)
@@ -492,7 +494,7 @@ def sim_case(draw, o: Optional[Opts] = None, max_ranks: int = 2, same_steps: boo
         nranks = pick(draw, nranks_choices)
     epoch = pick(draw, EPOCHS)
     nsteps = pick(draw, o.steps)
-    first_step = pick(draw, [0, 3, 100])
+    first_step = pick(draw, [0, 3, 100, 8, 98])  # 8 and 98: step numbers cross a digit-count boundary (9 -> 10, 99 -> 100)
     ranks = []
     pad_case = o.random_pad and o.pad_entries == 0 and pick(draw, [False] * 7 + [True])
     # correlation ids: usually 1000*(rank+1)+k; sometimes small or just below a dtype boundary (narrow column dtypes)
